@@ -112,6 +112,13 @@ def run(tier, replay):
             r = f.result()
             states += r.distinct
             trans += r.generated
+    # 1b. the largest instance of the property's quantifier (8 workers, 32 tasks of any kinds) is beyond exhaustive TLC: Apalache
+    # shows the safety part inductive there (base case, IndInv => C07Safety; thorough: the step, ~6 min, and the hold-the-lock
+    # variant must break it).  Runs beside the replay legs.
+    apa_pool = ThreadPoolExecutor(max_workers=2)
+    apa = [apa_pool.submit(vlib.apalache_inductive, "PoolApa", "IndInv", step_init="IndInit", implies="C07Safety", step=(tier != "quick"), timeout=1500)]
+    if tier != "quick":
+        apa.append(apa_pool.submit(vlib.apalache_inductive, "PoolApa", "IndInv", cinit="ConstInitHold", step_init="IndInit", expect_error=True, timeout=1500))
     # 2./3. per configuration: TLC behaviours -> real pool -> Trace_Pool
     results = []
     with vlib.Scratch("c07") as sc:
@@ -123,6 +130,8 @@ def run(tier, replay):
                                       None, ["--idle-after", 2, "--idle-ms", secs * 1000]))
             for f in futs:
                 results.append(f.result())
+    for f in apa:
+        f.result()          # a ToolError here is a refuted / vacuous specification, not a verdict
     verdict = vlib.Verdict("C07")
     for r in results:
         for f in r["fails"]:
@@ -139,7 +148,7 @@ def run(tier, replay):
         "configurations": [{"n": r["n"], "tasks": len(r["kinds"]), "behaviours": r["behaviours"], "free_runs": r["free"]} for r in results],
         "spec_mutants_refuted": MC_MUTANTS,
         "samples": [r["sample"] for r in results if r["sample"]][:2],
-        "rule": "MC_Pool: exhaustive safety+liveness (WF) for N<=3; Gen_Pool: seeded TLC simulation, each distinct behaviour replayed "
+        "rule": "MC_Pool: exhaustive safety+liveness (WF) for N<=3; PoolApa (Apalache): for N = 8 workers and T = 32 tasks of any kinds the strengthened safety invariant holds initially and implies exactly-once / no-loss / no-duplicate / mutual exclusion / FIFO (thorough: it is inductive, i.e. holds in every reachable state of that instance, and the hold-the-lock variant breaks the step); Gen_Pool: seeded TLC simulation, each distinct behaviour replayed "
                 "on the real ThreadPool with every thread gated at the hook points; free runs with seeded perturbation; every run validated by Trace_Pool",
     }
     ev["assumptions"] = ["hook points (cfg rws_verif) are add-only and placed after each critical section",
